@@ -20,7 +20,7 @@ PROP = "C19"
 
 def cases(tier, seed):
     out = []
-    step = 40 if tier == "quick" else 4
+    step = 12 if tier == "quick" else 3
     for mod, tag in ((c01, "C01"), (c04, "C04"), (c08, "C08"), (c09, "C09"), (c15, "C15"), (c07, "C07"), (c13, "C13"), (c03, "C03"), (c16, "C16")):
         cs = [c for c in mod.cases("quick", seed) if not c.get("inductive") and c.get("kind") not in ("tmax", "ema", "strategy")]
         picked = cs[::step if len(cs) > 60 else max(1, step // 8)]
@@ -138,8 +138,8 @@ def replay(case, conc, cand=None):
 
 META = {
     "glue": ['groupby_lib/groupby/core.py::_apply_gb_func_across_chunked_group_keys', 'groupby_lib/groupby/core.py::_apply_gb_reduction', 'groupby_lib/groupby/core.py::_find_first_chunk_in_slice', 'groupby_lib/groupby/core.py::_group_sort_indexer', 'groupby_lib/groupby/core.py::_max_threads_for_numba', 'groupby_lib/groupby/core.py::_resolve_mask_argument_into_chunks', 'groupby_lib/groupby/core.py::_unify_for_positional_mask', 'groupby_lib/groupby/core.py::_unify_group_key_chunks', 'groupby_lib/groupby/core.py::count_ikey', 'groupby_lib/groupby/numba.py::_apply_cumulative', 'groupby_lib/groupby/numba.py::_apply_group_method_single_chunk', 'groupby_lib/groupby/numba.py::_apply_rolling', 'groupby_lib/groupby/numba.py::_build_target_for_groupby', 'groupby_lib/groupby/numba.py::_chunk_args_for_chunked_values', 'groupby_lib/groupby/numba.py::_chunk_args_for_unchunked_values', 'groupby_lib/groupby/numba.py::_chunk_groupby_args', 'groupby_lib/groupby/numba.py::_group_func_wrap', 'groupby_lib/groupby/numba.py::combine_chunk_results_for_factorized_key', 'groupby_lib/groupby/numba.py::cumcount', 'groupby_lib/groupby/numba.py::cummax', 'groupby_lib/groupby/numba.py::cummin', 'groupby_lib/groupby/numba.py::cumsum', 'groupby_lib/groupby/numba.py::group_count', 'groupby_lib/groupby/numba.py::group_mean', 'groupby_lib/groupby/numba.py::group_size', 'groupby_lib/groupby/numba.py::group_sum', 'groupby_lib/groupby/numba.py::rolling_diff', 'groupby_lib/groupby/numba.py::rolling_max', 'groupby_lib/groupby/numba.py::rolling_mean', 'groupby_lib/groupby/numba.py::rolling_min', 'groupby_lib/groupby/numba.py::rolling_shift', 'groupby_lib/groupby/numba.py::rolling_sum', 'groupby_lib/util.py::_cast_timestamps_to_ints', 'groupby_lib/util.py::_null_value_for_numpy_type', 'groupby_lib/util.py::array_split_with_chunk_handling', 'groupby_lib/util.py::check_data_inputs_aligned', 'groupby_lib/util.py::jit_is_null', 'groupby_lib/util.py::parallel_map'],
-    "bounds": {"quick": {"configurations": "every 40th quick case of C01/C04 and a proportional sample of C03/C07/C08/C09/C13/C15"},
-               "thorough": {"configurations": "every 4th quick case of the same harnesses"}},
+    "bounds": {"quick": {"configurations": "every 12th quick case of C01/C04, every case of the smaller harnesses (C03/C07/C08/C09/C13/C15), every C16 user-function route (chosen by predicate), and the public reduction path"},
+               "thorough": {"configurations": "every 3rd quick case of the same harnesses"}},
     "enumerated": ["the sampled configurations (operation, dtype, mask kind, threads, chunk layouts, key representation)"],
     "symbolic": ["everything the sampled harness keeps symbolic (codes, values, null flags, masks, pointer tables)"],
     "assumptions": ["every input / state array is tagged at construction; views share the tag; a store whose target carries a tag is recorded with its "
